@@ -297,7 +297,7 @@ def render_desc(groups, layout, rng, canonical_tr=False, colons=True):
         if layout in ('TRS_desc', 'TR_desc_S'):
             g = tr + rng.choice([', ', '\n', ' ', ': ']) + body
         else:
-            g = body + rng.choice([', ', '\n', ', in ', ' of ']) + tr
+            g = body + rng.choice([', ', '\n', '; ', ',\n']) + tr
         parts.append(g)
     return rng.choice(['\n', '; ', '\n\n', ', ']).join(parts)
 
